@@ -348,5 +348,5 @@ func TestC18(t *testing.T) {
 	}
 	s.Rec.Extra("exhaustive", complete && !s.Failed())
 	s.Rec.Extra("exhaustive_subdomain", "all 512+510 table entries; all 256 division indices for every listed polynomial")
-	c18Part.Run(s, hx.PerShard(hx.Pick(640, 28800)))
+	c18Part.Run(s, hx.PerShard(hx.Pick(640, 9600)))
 }
